@@ -88,7 +88,8 @@ class Check:
         return self.ob(rule, construct, v, detail, **kw)
 
     def note(self, msg):
-        self.notes.append(msg)
+        if msg not in self.notes:
+            self.notes.append(msg)
 
     def describe(self, rule, text):
         self.rule_text[rule] = text
